@@ -76,9 +76,17 @@ def _is_self_tokens(n):
     return isinstance(n, ast.Attribute) and n.attr == 'tokens' and isinstance(n.value, ast.Name) and n.value.id == 'self'
 
 
+_DRAINING_METHODS = {}       # name -> FunctionDef of the methods of the parser class at hand whose every path exhausts self.tokens (set per class by check_error_callback)
+
+
 def _stmt_drains(s):
     """True if executing the simple statement exhausts self.tokens; None if it uses self.tokens in an
     unmodelled way; False if it does not touch it."""
+    # `self._whole_token_stream()`: a method of the class whose (straight-line) body drains the iterator
+    for n in ast.walk(s):
+        if isinstance(n, ast.Call) and isinstance(n.func, ast.Attribute) and isinstance(n.func.value, ast.Name) and n.func.value.id == 'self' \
+                and n.func.attr in _DRAINING_METHODS and not _mentions_tokens(s):
+            return True
     if not _mentions_tokens(s):
         return False
     verdict = None
@@ -108,6 +116,14 @@ def check_error_callback(ctx, d, g):
         return
     ctx.count('error_callbacks')
     cons = f'{d}:{cls}.error'
+    # helper methods of the same class that drain on every path: a body of simple statements (no branching), one of which drains
+    _DRAINING_METHODS.clear()
+    cnode = next((c for c in ast.walk(ctx.src.tree(file)) if isinstance(c, ast.ClassDef) and c.name == cls), None)
+    for m in (cnode.body if cnode is not None else []):
+        if isinstance(m, ast.FunctionDef) and m is not fn and m.name != 'error':
+            body_ = [x for x in m.body if not (isinstance(x, ast.Expr) and isinstance(x.value, ast.Constant))]
+            if body_ and all(isinstance(x, (ast.Assign, ast.Expr, ast.Return, ast.AugAssign)) for x in body_) and any(_mentions_tokens(x) and _stmt_drains(x) for x in body_):
+                _DRAINING_METHODS[m.name] = m
 
     def transfer(s, st):
         if isinstance(s, (ast.For, ast.While, ast.If, ast.With)):
